@@ -66,7 +66,7 @@ def STREAM_INV(c, s, k):
             and s.max_outbound_frame_size == c.max_outbound_frame_size
             and k <= watermark(c, k)
             and s._inbound_window_manager.max_window_size <= MAXWIN
-            and s._inbound_window_manager.current_window_size <= MAXWIN
+            and s._inbound_window_manager.current_window_size <= s._inbound_window_manager.max_window_size
             and s._inbound_window_manager._bytes_processed >= 0
             and s.outbound_flow_control_window <= MAXWIN
             and s._actual_content_length >= 0)
@@ -80,7 +80,7 @@ def GI(c):
             and (c.highest_inbound_stream_id == 0 or c.highest_inbound_stream_id % 2 != own_parity(c))
             and c.outbound_flow_control_window <= MAXWIN
             and c._inbound_flow_control_window_manager.max_window_size <= MAXWIN
-            and c._inbound_flow_control_window_manager.current_window_size <= MAXWIN
+            and c._inbound_flow_control_window_manager.current_window_size <= c._inbound_flow_control_window_manager.max_window_size
             and c._inbound_flow_control_window_manager._bytes_processed >= 0
             and all(STREAM_INV(c, c.streams[k], k) for k in c.streams))
 
@@ -112,3 +112,8 @@ def SETTINGS_OK(s):
             and setting_has(s, S_INITIAL_WINDOW_SIZE) and 0 <= setting_current(s, S_INITIAL_WINDOW_SIZE) and setting_current(s, S_INITIAL_WINDOW_SIZE) <= MAXWIN
             and setting_has(s, S_MAX_FRAME_SIZE) and 16384 <= setting_current(s, S_MAX_FRAME_SIZE) and setting_current(s, S_MAX_FRAME_SIZE) <= 16777215
             and setting_has(s, S_ENABLE_CONNECT_PROTOCOL) and 0 <= setting_current(s, S_ENABLE_CONNECT_PROTOCOL) and setting_current(s, S_ENABLE_CONNECT_PROTOCOL) <= 1)
+
+
+def accepted_data(result):
+    """The DATA frame was delivered to the application (a DataReceived event)."""
+    return len(result[1]) >= 1 and class_name(result[1][0]) == "DataReceived"
